@@ -284,7 +284,7 @@ Qed.
 Lemma drawing_step_pref opcode b its r : drawing_step opcode b = (its, r) ->
   pref (opcode :: b) its (step_rest r) /\ (ncalls its <= length (lbytes its))%nat /\ head_is_opcode opcode its r.
 Proof.
-  unfold drawing_step. cbv zeta beta.
+  unfold drawing_step, draw_group. cbv zeta beta.
   destruct (opcode <? 224).
   { set (cfg := if _ <? 2 then _ else _). destruct cfg as [[op ncoords] nreps] eqn:Ecfg.
     set (one := if op =? opA then arc_rep false else if op =? opa then arc_rep true else draw_rep op ncoords).
